@@ -647,6 +647,27 @@ def function_cells_carry_requirements(ctx):
         for i, j, s in cells:
             p = op_place(s['rv']['ops'][1])
             sl = mirq.backslice(b, [p['l']]) if p is not None else set()
+            # a list filled after it was created (`let mut v = Vec::new(); v.extend(func.forward_requirements..)`): calls that
+            # receive `&mut v` contribute what their other arguments are computed from
+            grown = True
+            while grown:
+                grown = False
+                for cbb, ct in b.calls():
+                    als = [op_place(a) for a in ct['args']]
+                    muts = []
+                    for a in als:
+                        if a is None or a['p']:
+                            continue
+                        d0 = b.defs().get(a['l'], [])
+                        if len(d0) == 1 and d0[0][0] == 'stmt' and d0[0][3]['rv']['k'] == 'ref' and d0[0][3]['rv'].get('mut') and d0[0][3]['rv']['place']['l'] in sl:
+                            muts.append(a['l'])
+                    if muts:
+                        for a in als:
+                            if a is not None and a['l'] not in muts:
+                                more = mirq.backslice(b, [a['l']]) - sl
+                                if more:
+                                    sl |= more
+                                    grown = True
             from_func = False
             for i2, j2, s2 in b.stmts():
                 if s2['k'] == 'assign' and s2['place']['l'] in sl and not s2['place']['p']:
